@@ -113,15 +113,17 @@ def run(tier, seed):
     nacc2, rej2, rt2 = TA.validate(traces, strict=True)
     # the binding is demonstrated on every run: one corrupted field must be rejected
     import copy
-    bad = copy.deepcopy(next(t for t in traces if len(t) >= 3))
-    bad[1]["st"]["ncomments"] += 1
-    _, rejb, _ = TA.validate([bad], strict=False)
-    if not rejb:
-        raise C.MachineryError("trace validation accepted a corrupted trace: the binding is vacuous")
+    long_enough = [t for t in traces if len(t) >= 3]
+    if long_enough:      # (no events at all = the guarded hooks are not in this tree: trace validation skipped, not a verdict)
+        bad = copy.deepcopy(long_enough[0])
+        bad[1]["st"]["ncomments"] += 1
+        _, rejb, _ = TA.validate([bad], strict=False)
+        if not rejb:
+            raise C.MachineryError("trace validation accepted a corrupted trace: the binding is vacuous")
     states += (rt.distinct if rt else 0) + (rt2.distinct if rt2 else 0)
     trans += (rt.generated if rt else 0) + (rt2.generated if rt2 else 0)
     cov["corpus_traces"] = {"scripts": len(traces), "lines": sum(len(t) for t in traces), "accepted": nacc, "rejected": len(rej),
-                            "strict_only_rejections (model drift)": len(rej2) - len(rej), "corrupted_trace_rejected": True}
+                            "strict_only_rejections (model drift)": len(rej2) - len(rej), "corrupted_trace_rejected": bool(long_enough)}
     total += nacc
     rc = V.finish()
     cov.update({"states": states, "transitions": trans, "traces_validated_against_impl": total,
